@@ -66,6 +66,21 @@ Proof.
 Qed.
 Print Assumptions C15_window.
 
+(** END TO END: whatever temporal_dag returns is [dag_of] of the window ids, which are strictly increasing and lie in
+    [start, end]; so the four theorems above speak about the returned DAG itself *)
+Theorem C15_end_to_end : forall g u v s e d, NoDup (map fst (g_snaps g)) -> temporal_dag g u v s e = DagOk d ->
+  exists ids, window_ids g s e = Some ids /\ StronglySorted Z.lt ids /\ d = dag_of g u v ids /\
+    (forall o, In o (d_sources d) <-> exists t, o = Occ u t /\ In t ids /\ nbrs_t g u t <> []) /\
+    (forall x, In x (d_edges d) -> edge_ok g u ids (d_sources d) x).
+Proof.
+  intros g u v s e d Hn H. unfold temporal_dag in H. destruct (window_ids g s e) as [ids|] eqn:Hw; [|discriminate].
+  inversion H; subst. exists ids. assert (Hs : StronglySorted Z.lt ids) by (eapply window_ids_sorted; eauto).
+  split; [reflexivity|]. split; [exact Hs|]. split; [reflexivity|]. split.
+  - exact (C15_sources g u v ids Hs).
+  - exact (C15_edge_sound g u v ids Hs).
+Qed.
+Print Assumptions C15_end_to_end.
+
 Example C15_example :
   let g := fst (add_interaction (fst (add_interaction (fst (add_interaction (empty_graph false true) 1 2 (Some 0) None)) 2 3 (Some 1) None)) 1 3 (Some 2) None) in
   match temporal_dag g 1 None None None with
